@@ -1,0 +1,141 @@
+//go:build verif
+
+package mempool
+
+import (
+	"github.com/33cn/chain33/common/listmap"
+	"github.com/33cn/chain33/types"
+)
+
+// Verification hooks (build tag verif only). They add observation points for the runtime
+// monitors in /verif; nothing here is compiled into a normal build.
+
+// VerifItem is one queue entry as seen by the snapshot.
+type VerifItem struct {
+	Hash      string // full tx hash (raw bytes as string)
+	From      string
+	Fee       int64
+	Bytes     int64 // types.Size(tx)
+	EnterTime int64
+	Tx        *types.Transaction
+	ExistOK   bool // qcache.Exist(hash)
+	GetItemOK bool // qcache.GetItem(hash) returns this very item
+}
+
+// VerifListEntry is one entry of a ListMap based index (walk order).
+type VerifListEntry struct {
+	Hash  string // hash of the stored tx
+	KeyOK bool   // GetItem(expected key) returns this very value
+	Tx    *types.Transaction
+}
+
+// VerifSnap is a copy of all bookkeeping structures of the pool taken under the pool lock.
+type VerifSnap struct {
+	Queue      []VerifItem // qcache walk order
+	QueueSize  int         // qcache.Size()
+	QueueBytes int64       // qcache.GetCacheBytes()
+	TotalFee   int64       // txCache.totalFee
+
+	Acc        map[string][]VerifListEntry // per-sender index, walk order
+	AccSize    map[string]int              // ListMap.Size() per sender
+	MaxPerAcc  int
+	Last       []VerifListEntry
+	LastSize   int
+	LastMax    int
+	SHash      []VerifListEntry // short-hash lookup, walk order
+	SHashKeys  []string         // short hash under which entry i answers (computed from its tx hash)
+	SHashSize  int
+	SHashMax   int
+	Height     int64
+	BlockTime  int64
+	HasHeader  bool
+	IsSync     bool
+	MinFeeRate int64
+}
+
+func verifWalkList(lm *listmap.ListMap, key func(tx *types.Transaction) string) []VerifListEntry {
+	var out []VerifListEntry
+	lm.Walk(func(v interface{}) bool {
+		tx := v.(*types.Transaction)
+		e := VerifListEntry{Hash: string(tx.Hash()), Tx: tx}
+		got, err := lm.GetItem(key(tx))
+		e.KeyOK = err == nil && got == v
+		out = append(out, e)
+		return true
+	})
+	return out
+}
+
+// VerifSnapshot copies the pool bookkeeping under the pool's own lock.
+func (mem *Mempool) VerifSnapshot() *VerifSnap {
+	mem.proxyMtx.Lock()
+	defer mem.proxyMtx.Unlock()
+	c := mem.cache
+	s := &VerifSnap{Acc: map[string][]VerifListEntry{}, AccSize: map[string]int{}}
+	if c.qcache != nil {
+		c.qcache.Walk(0, func(it *Item) bool {
+			h := string(it.Value.Hash())
+			vi := VerifItem{Hash: h, From: it.Value.From(), Fee: it.Value.Fee, Bytes: int64(types.Size(it.Value)),
+				EnterTime: it.EnterTime, Tx: it.Value}
+			vi.ExistOK = c.qcache.Exist(h)
+			got, err := c.qcache.GetItem(h)
+			vi.GetItemOK = err == nil && got == it
+			s.Queue = append(s.Queue, vi)
+			return true
+		})
+		s.QueueSize = c.qcache.Size()
+		s.QueueBytes = c.qcache.GetCacheBytes()
+	}
+	s.TotalFee = c.totalFee
+	fullKey := func(tx *types.Transaction) string { return string(tx.Hash()) }
+	for addr, lm := range c.AccountTxIndex.accMap {
+		s.Acc[addr] = verifWalkList(lm, fullKey)
+		s.AccSize[addr] = lm.Size()
+	}
+	s.MaxPerAcc = c.AccountTxIndex.maxperaccount
+	s.Last = verifWalkList(c.LastTxCache.l, fullKey)
+	s.LastSize = c.LastTxCache.l.Size()
+	s.LastMax = c.LastTxCache.max
+	s.SHash = verifWalkList(c.SHashTxCache.l, func(tx *types.Transaction) string { return types.CalcTxShortHash(tx.Hash()) })
+	for _, e := range s.SHash {
+		s.SHashKeys = append(s.SHashKeys, types.CalcTxShortHash([]byte(e.Hash)))
+	}
+	s.SHashSize = c.SHashTxCache.l.Size()
+	s.SHashMax = c.SHashTxCache.max
+	if mem.header != nil {
+		s.HasHeader = true
+		s.Height = mem.header.GetHeight()
+		s.BlockTime = mem.header.GetBlockTime()
+	}
+	s.IsSync = mem.sync
+	s.MinFeeRate = mem.cfg.MinTxFeeRate
+	return s
+}
+
+// VerifSetEnterTime sets the pool entry time of a queued tx to (now - secondsAgo); the monitors use it
+// to create aged transactions far from the expiry boundary without waiting.
+func (mem *Mempool) VerifSetEnterTime(hash string, secondsAgo int64) bool {
+	mem.proxyMtx.Lock()
+	defer mem.proxyMtx.Unlock()
+	if mem.cache.qcache == nil {
+		return false
+	}
+	it, err := mem.cache.qcache.GetItem(hash)
+	if err != nil {
+		return false
+	}
+	it.EnterTime = types.Now().Unix() - secondsAgo
+	return true
+}
+
+// VerifRemoveExpired triggers the periodic expiry sweep (normally run once per minute by a ticker).
+func (mem *Mempool) VerifRemoveExpired() {
+	mem.removeExpired()
+}
+
+// VerifExpiredInterval returns the configured pool-age limit (seconds).
+func VerifExpiredInterval() int64 { return mempoolExpiredInterval }
+
+// VerifStopTicker stops the one-minute expiry ticker so that sweeps happen only when the monitor triggers them
+// (the sweep itself, removeExpired, is unchanged and reached through VerifRemoveExpired / eventAddBlock).
+func (mem *Mempool) VerifStopTicker() { mem.removeBlockTicket.Stop() }
